@@ -56,8 +56,9 @@ var AssembleOutputRegex = regexp.MustCompile(`^\s*##!=>\s*(.*)$`)
 
 // RuleRxRegex matches a full SecRule line with @rx.
 // Everything up to the start of the regular expression is captured in group 1,
-// the end of the line after the regular expression is captured in group 2.
-var RuleRxRegex = regexp.MustCompile(`(.*"!?@rx )(.*)(" \\)`)
+// the regular expression in group 2, the closing quote and line continuation
+// in group 3, and whatever follows on the line (e.g., a carriage return) in group 4.
+var RuleRxRegex = regexp.MustCompile(`(.*"!?@rx )(.*)(" \\)(.*)`)
 
 // SecRuleRegex matches any SecRule line.
 var SecRuleRegex = regexp.MustCompile(`\s*SecRule`)
